@@ -104,8 +104,8 @@ CHECKS['C11'] = dict(
 CHECKS['C06'] = dict(
     category='other', design_ref='DESIGN.md section 5 C06, sections 12.11 (value clause) and 12.14 (grammar clause)',
     technique=ABSINT + ' with generalisation (widening with thresholds + candidate relations checked inductively) at loop heads; modular: the three scanning helpers are analysed alone and replaced by the summaries they establish; unsafe preconditions as obligations; value and grammar clauses: the scanners replaced by a value-level contract with ghost quantities (digit counts, digits as a number, a trace of the runs), one atom per byte position, the input string reconstructed from each path\'s facts and judged by a DFA of the literal grammar written from the statement',
-    text='CLAUSES decided: (1) str_to_dec, from_str and the TryFrom<&str|String> forwarders never panic and never read outside the string, for slices of every length 0..=isize::MAX, and at each unsafe call site of the parser the precondition holds. Under contract A of the three scanners (each consumes the maximal run of zeros / digits; accum_coeff leaves old*10^k + digits folded modulo 2^128 resp. saturating as its body does) - whose byte-at-a-time loops are proved here one iteration at a time (H-SCAN-STEP: one byte of the class consumed, accumulator = fold(10*old + digit), run maximal on return), while the SWAR 8-digit step (digit test and conversion by bit tricks) stays assumed: (2) magnitude and signs: every Ok((c, e)) has c = +-D (D = the literal\'s digits as a number, D <= i128::MAX implied, sign from the literal\'s sign byte) and e = +-exponent - fractional digits (sign from the exponent\'s sign byte); Err(InternalOverflow) implies D > i128::MAX; (3) grammar: on every path the input string is reconstructed from the path\'s facts (byte tests, runs promised by the contract, end of input); Ok only for complete strings of the grammar [+|-](digits[.digits*] | .digits)[(e|E)[+|-]digits], Err(Invalid) only for strings no completion of which is in the grammar, Err(Empty) only for the empty string, Err(FracDigitLimitExceeded) before the end of the input only with an exponent of magnitude >= 100. The folding of (c, e) into a Decimal is C18\'s oracle. NOT decided: the SWAR part of contract A; a zero coefficient with an exponent beyond 38 / 99 is rejected (not judged).',
-    note=TB + 'slice/pointer models track lengths and one atom per byte position; contract A. Five defects found by clauses (2) and (3) are repaired by fix: commits: a wrapped 39-digit coefficient accepted; many leading fractional zeros rejected as overflow; "0." / "0e3" rejected; "1e+" accepted; "1e005" rejected.')
+    text='CLAUSES decided: (1) str_to_dec, from_str and the TryFrom<&str|String> forwarders never panic and never read outside the string, for slices of every length 0..=isize::MAX, and at each unsafe call site of the parser the precondition holds. Under contract A of the three scanners (each consumes the maximal run of zeros / digits; accum_coeff leaves old*10^k + digits folded modulo 2^128 resp. saturating as its body does) - which is itself proved here, one iteration at a time (H-SCAN-STEP: one byte of the class consumed - eight in the SWAR loop -, accumulator = fold(10*old + digit) resp. fold(10^8*old + the eight digits), run maximal on return) together with the SWAR pair (H-SWAR: chunk_contains_8_digits is false whenever a byte is not a digit, in 25 lane cells; chunk_to_u64 of eight digits is the number they spell); trusted remainder: folding step by step = folding the numeral: (2) magnitude and signs: every Ok((c, e)) has c = +-D (D = the literal\'s digits as a number, D <= i128::MAX implied, sign from the literal\'s sign byte) and e = +-exponent - fractional digits (sign from the exponent\'s sign byte); Err(InternalOverflow) implies D > i128::MAX; (3) grammar: on every path the input string is reconstructed from the path\'s facts (byte tests, runs promised by the contract, end of input); Ok only for complete strings of the grammar [+|-](digits[.digits*] | .digits)[(e|E)[+|-]digits], Err(Invalid) only for strings no completion of which is in the grammar, Err(Empty) only for the empty string, Err(FracDigitLimitExceeded) before the end of the input only with an exponent of magnitude >= 100. The folding of (c, e) into a Decimal is C18\'s oracle. NOT decided: a zero coefficient with an exponent beyond 38 / 99 is rejected (not judged).',
+    note=TB + 'slice/pointer models track lengths and one atom per byte position, words read from the input as byte lanes; fold algebra. Five defects found by clauses (2) and (3) are repaired by fix: commits: a wrapped 39-digit coefficient accepted; many leading fractional zeros rejected as overflow; "0." / "0e3" rejected; "1e+" accepted; "1e005" rejected.')
 
 CHECKS['C07'] = dict(
     category='other', design_ref='DESIGN.md section 12.10',
